@@ -321,4 +321,104 @@ theorem opNewScope_inv {hd : HD K P} {s : State K P} (h : Inv hd s) (sc : Scope)
               | some _ => simp [hx] at hnone
             exact h.newScope hnone' (h.disk.root root hrp) (mkKeyScope_ok hd root sc schema sd0 hmk) schema
 
+-- ---------------------------------------------------------------------------------------------------------
+-- freshly opened manager: Create, restart
+
+theorem getSM_fresh (d : Disk K P) (s : State K P) (hm : s.mem = freshMem d) (sc : Scope) :
+    getSM s sc = (alookup d.scopes sc).map fun sd => { schema := sd.schema, acctInfo := [], addrs := [], dou := [] } := by
+  simp only [getSM, hm, freshMem]
+  exact alookup_map d.scopes (fun _ sd => ({ schema := sd.schema, acctInfo := [], addrs := [], dou := [] } : ScopeMem K P)) sc
+
+/-- a manager that has just been opened on a consistent database -/
+theorem Inv.ofFresh {hd : HD K P} {s : State K P} (hdisk : DiskOK hd s) (hm : s.mem = freshMem s.disk) : Inv hd s := by
+  have hc : ∀ sc a, cacheAt s sc a = none := by
+    intro sc a
+    unfold cacheAt
+    rw [getSM_fresh s.disk s hm]
+    cases alookup s.disk.scopes sc <;> simp [alookup]
+  have hd' : ∀ sc, douAt s sc = [] := by
+    intro sc
+    unfold douAt
+    rw [getSM_fresh s.disk s hm]
+    cases alookup s.disk.scopes sc <;> simp
+  have hh : s.mem.heap = [] := by rw [hm]; rfl
+  refine ⟨by rw [hm]; rfl, fun _ => by rw [hm]; rfl, hdisk, ?_, ?_, ?_, ?_⟩
+  · intro sc a ai h; rw [hc] at h; cases h
+  · intro o ho; rw [hh] at ho; cases ho
+  · intro sc e he; rw [hd'] at he; cases he
+  · intro idx o ho; rw [hh] at ho; simp at ho
+
+theorem opRestart_inv {hd : HD K P} {s : State K P} (h : Inv hd s) : Inv hd (opRestart s).1 :=
+  Inv.ofFresh (h.disk.of_eq rfl rfl rfl) rfl
+
+theorem mkScopes_spec (hd : HD K P) (root : K) : ∀ (l : List (Scope × Schema)) (r : List (Scope × ScopeDisk K P)),
+    mkScopes hd root l = some r → ∀ sc sd, alookup r sc = some sd → ScopeInit hd root sc sd := by
+  intro l
+  induction l with
+  | nil => intro r h sc sd hl; simp [mkScopes] at h; subst h; simp [alookup] at hl
+  | cons p t ih =>
+    intro r h sc sd hl
+    obtain ⟨sc0, sch⟩ := p
+    unfold mkScopes at h
+    split at h
+    · rename_i sd0 r0 hmk hr0
+      cases h
+      simp only [alookup] at hl
+      by_cases hsc : sc0 = sc
+      · subst hsc
+        simp at hl
+        subst hl
+        exact mkKeyScope_ok hd root sc0 sch sd0 hmk
+      · simp [hsc] at hl
+        exact ih r0 hr0 sc sd hl
+    · cases h
+
+theorem opCreate_inv (hd : HD K P) (root : K) : Inv hd (opCreate hd root).1 := by
+  unfold opCreate
+  split
+  · exact Inv_empty hd
+  · rename_i scs hscs
+    dsimp only
+    apply Inv.ofFresh _ rfl
+    have hspec := mkScopes_spec hd root _ _ hscs
+    refine ⟨fun r hr => by simpa using hr, ?_, ?_, ?_, ?_⟩
+    · intro sc ck hc
+      simp only [coinAt, getSD] at hc
+      cases hsd : alookup scs sc with
+      | none => simp [hsd] at hc
+      | some sd =>
+        simp [hsd] at hc
+        obtain ⟨ck', ak, h1, _, h3, _⟩ := hspec sc sd hsd
+        rw [h3] at hc; cases hc
+        exact ⟨root, rfl, h1⟩
+    · intro sc lo hlo
+      simp only [lastAt, getSD] at hlo
+      cases hsd : alookup scs sc with
+      | none => simp [hsd] at hlo
+      | some sd =>
+        simp [hsd] at hlo
+        have hi := hspec sc sd hsd
+        refine ⟨0, by rw [← hlo]; exact hi.choose_spec.choose_spec.2.2.2.2.2, fun a ha => ?_⟩
+        simp only [acctRow, getSD, hsd, Option.bind_some] at ha
+        cases hr : alookup sd.accts a with
+        | none => rw [hr] at ha; cases ha
+        | some r => have := (hi.row hr).1; omega
+    · intro sc a r hr
+      simp only [acctRow, getSD] at hr
+      cases hsd : alookup scs sc with
+      | none => simp [hsd] at hr
+      | some sd =>
+        simp [hsd] at hr
+        obtain ⟨ha, ak, hak, hr'⟩ := (hspec sc sd hsd).row hr
+        subst ha hr'
+        exact ⟨root, ak, rfl, hak, rfl, fun k hk => by cases hk; rfl⟩
+    · intro sc id a b i hr
+      simp only [addrRowAt, getSD] at hr
+      cases hsd : alookup scs sc with
+      | none => simp [hsd] at hr
+      | some sd =>
+        simp [hsd] at hr
+        rw [(hspec sc sd hsd).choose_spec.choose_spec.2.2.2.2.1] at hr
+        simp [alookup] at hr
+
 end AddrDerive
